@@ -69,22 +69,37 @@ inductive CErr | none | closed | overflow | io
 
 def overflow (maxWB : Nat) (s : CS) (n : Nat) : Bool := maxWB > 0 && s.left + n > maxWB
 
-/-- c.write: the direct syscall reads the caller's memory (`w-`) -/
-def writeInner (capOf : Nat → Nat) (maxWB : Nat) (s : CS) (n : Nat) (k : KAns) : CS × CErr :=
+/-- the direct write of c.write: every attempt is a syscall that reads the caller's memory (`w-`); an
+interrupted attempt (EINTR) is retried and consumes the next scripted answer; an exhausted script means
+EAGAIN. Returns the answer the loop ends with. -/
+def directLog (h : Heap) : List KAns → Heap × KAns
+  | [] => (h.log (.write none), .eagain)
+  | .eintr :: ks => directLog (h.log (.write none)) ks
+  | k :: _ => (h.log (.write none), k)
+
+/-- the same for c.writev (its syscall is not a `Write`: no event) -/
+def directAns : List KAns → KAns
+  | [] => .eagain
+  | .eintr :: ks => directAns ks
+  | k :: _ => k
+
+/-- c.write -/
+def writeInner (capOf : Nat → Nat) (maxWB : Nat) (s : CS) (n : Nat) (ks : List KAns) : CS × CErr :=
   if n == 0 then (s, .none)
   else if overflow maxWB s n then (s, .overflow)
   else if s.wl.isEmpty then
-    let s := { s with heap := s.heap.log (.write none) }
-    if k = .fail then (s, .io)
-    else (enqueue capOf s (n - kN k n), .none)
+    let p := directLog s.heap ks
+    let s := { s with heap := p.1 }
+    if p.2 = .fail then (s, .io)
+    else (enqueue capOf s (n - kN p.2 n), .none)
   else (enqueue capOf s n, .none)
 
 /-- the tail of Write / Writev: a fatal error closes the connection -/
 def finishCall (r : CS × CErr) : CS × CErr :=
   if r.2 = .none then r else (closeNow r.1, r.2)
 
-def write (capOf : Nat → Nat) (maxWB : Nat) (s : CS) (n : Nat) (k : KAns) : CS × CErr :=
-  if s.closed then (s, .closed) else finishCall (writeInner capOf maxWB s n k)
+def write (capOf : Nat → Nat) (maxWB : Nat) (s : CS) (n : Nat) (ks : List KAns) : CS × CErr :=
+  if s.closed then (s, .closed) else finishCall (writeInner capOf maxWB s n ks)
 
 /-- c.writev's bookkeeping after a partial direct write: `n` bytes went out, queue the rest -/
 def queueRest (capOf : Nat → Nat) : CS → Nat → List Nat → CS
@@ -102,11 +117,11 @@ def writevInner (capOf : Nat → Nat) (maxWB : Nat) (s : CS) (bs : List Nat) (k 
   else if k = .fail then (s, .io)
   else if kN k size < size then (queueRest capOf s (kN k size) bs, .none) else (s, .none)
 
-def writev (capOf : Nat → Nat) (maxWB : Nat) (s : CS) (bs : List Nat) (k : KAns) : CS × CErr :=
+def writev (capOf : Nat → Nat) (maxWB : Nat) (s : CS) (bs : List Nat) (ks : List KAns) : CS × CErr :=
   if s.closed then (s, .closed)
   else match bs with
-    | [b] => finishCall (writeInner capOf maxWB s b k)
-    | _ => finishCall (writevInner capOf maxWB s bs k)
+    | [b] => finishCall (writeInner capOf maxWB s b ks)
+    | _ => finishCall (writevInner capOf maxWB s bs (directAns ks))
 
 /-- Sendfile's direct loop at length level: `true` = fatal -/
 def sendfileLoop : CS → Nat → List KAns → CS × Bool
@@ -169,7 +184,7 @@ def flush (s : CS) (ks : List KAns) : CS :=
 def close (s : CS) : CS := if s.closed then s else closeNow s
 
 inductive COp
-  | write (n : Nat) (k : KAns) | writev (bs : List Nat) (k : KAns)
+  | write (n : Nat) (ks : List KAns) | writev (bs : List Nat) (ks : List KAns)
   | sendfile (rem : Nat) (ks : List KAns) | flush (ks : List KAns) | close
 
 def cstep (capOf : Nat → Nat) (maxWB : Nat) (s : CS) : COp → CS
